@@ -5,14 +5,15 @@ Specification: `lww log (cf,k)` = the most recent write to (cf,k) in the write l
 mapped to not-found when it is a delete.  (The plain API has no expiry parameter: `Set/SetCF/Del/
 DelCF` take key and value only, so "expired" cannot arise through it.)
 
-HEADLINE STATEMENT (full strength, kept as the target):
-    theorem C01_get_refines (c) (hc : c.Good) (ops) (hwf : ∀ op ∈ ops, op.wf) (cf k) :
-        getPlain c (run c {} ops) cf k = lww (logOf [] ops) cf k
-  over ALL modelled ops.  Proved below for put/delete, rotate, flush, L0→ingest move and
-  close+reopen (`C01_get_refines_partial`); MISSING: ingest keep / drain, L0→L0, Ln→Ln+1,
-  Lmax→Lmax, value-log GC (see Props/C02.lean).  The hypothesis includes `crossPick = maxVersion`
-  although first-hit is harmless as long as every write uses the single plain-API version.  `C01_partial` of DESIGN.md (the as-is model refines
-  the spec on histories that never rewrite an internal key across a rotate) is NOT proved.
+HEADLINE `C01_get_refines`: for every configuration with the good decisions (`Cfg.AllGood`) and
+EVERY sequence of the modelled operations (put / delete, rotate, flush, L0→ingest move, ingest
+keep, ingest drain merging with main tables, close+reopen; any order, any number) the plain `Get`
+returns what last-writer-wins says.  Hypothesis on the sequence: `Op.wf` (decidable: written keys
+non-empty and at most `maxKeySize` bytes).  `lww_is_last_write` shows that for histories written
+through the plain API alone (one version) `lww` is literally "the first log entry of that key".
+Not in the model (hence not in the theorem): L0→L0, Ln→Ln+1, Lmax→Lmax, value-log GC, expiry.
+`C01_partial` of DESIGN.md (the as-is model refines the spec on histories that never rewrite an
+internal key across a rotate) is NOT proved.
 -/
 import NoKVModel.Props.C02
 import NoKVModel.Lsm.BigKey
@@ -26,12 +27,27 @@ def lww (log : List Entry) (cf : Nat) (k : Bytes) : Option Bytes :=
   | some e => if e.del then none else some e.val
   | none => none
 
-theorem C01_get_refines_partial (c : Cfg) (hc : c.ReadGood) (ops : List Op)
-    (hops : ∀ op ∈ ops, op.basic = true ∧ op.wf) (cf : Nat) (k : Bytes) :
+theorem C01_get_refines (c : Cfg) (hc : c.AllGood) (ops : List Op) (hops : ∀ op ∈ ops, op.wf)
+    (cf : Nat) (k : Bytes) :
     getPlain c (run c {} ops) cf k = lww (logOf [] ops) cf k := by
   unfold getPlain lww
-  rw [C02.C02_getv_refines_partial c hc ops hops]
+  rw [C02.C02_getv_refines c hc ops hops]
   cases pick ⟨cf, k, maxVersion⟩ (logOf [] ops) <;> rfl
+
+/-! non-vacuity: a plain-API history (single version) with overwrites, a delete, keep and drain -/
+def demoOps : List Op :=
+  [.put ⟨0, [107], maxVersion, [1], false⟩, .rotate, .flush, .l0move, .drain,
+   .put ⟨0, [107], maxVersion, [2], false⟩, .put ⟨0, [109], maxVersion, [7], false⟩, .rotate, .flush,
+   .l0move, .keep, .put ⟨0, [107], maxVersion, [3], false⟩, .rotate, .flush, .l0move, .drain, .reopen,
+   .put ⟨0, [109], maxVersion, [], true⟩, .rotate, .flush, .l0move, .keep, .drain]
+
+example : ∀ op ∈ demoOps, op.wf := by decide
+
+example : getPlain Cfg.good (run Cfg.good {} demoOps) 0 [107] = some [3] ∧
+    getPlain Cfg.good (run Cfg.good {} demoOps) 0 [109] = none := by decide
+
+example : getPlain Cfg.good (run Cfg.good {} demoOps) 0 [107] = lww (logOf [] demoOps) 0 [107] :=
+  C01_get_refines Cfg.good (by decide) demoOps (by decide) 0 [107]
 
 /-- when every write uses the single non-transactional version, `lww` is literally "the first
     entry of the log with that (cf, key)" -/
@@ -68,11 +84,11 @@ def l0tieOps : List Op :=
 
 theorem C01_fails_asis_l0tie (c : Cfg) (hc : c.l0SearchDir = .oldestFirst ∧ c.tieRule = .lt) :
     ¬ (getPlain c (run c {} l0tieOps) 0 [107] = lww (logOf [] l0tieOps) 0 [107]) := by
-  rcases c with ⟨d, t, cp, lo, io, im, mk, to, ob, pk⟩
+  rcases c with ⟨d, t, cp, lo, io, im, mk, to, ob, pk, zf⟩
   simp only at hc
   obtain ⟨rfl, rfl⟩ := hc
   cases cp <;> cases lo <;> cases io <;> cases im <;> cases mk <;> cases to <;> cases ob <;>
-    cases pk <;> decide
+    cases pk <;> cases zf <;> decide
 
 def ingestOrderOps : List Op :=
   [.put ⟨0, [109], maxVersion, [1], false⟩, .rotate, .flush,
@@ -80,11 +96,11 @@ def ingestOrderOps : List Op :=
 
 theorem C01_fails_asis_ingestorder (c : Cfg) (hc : c.ingestOrder = .minKeyDesc ∧ c.tieRule = .lt) :
     ¬ (getPlain c (run c {} ingestOrderOps) 0 [109] = lww (logOf [] ingestOrderOps) 0 [109]) := by
-  rcases c with ⟨d, t, cp, lo, io, im, mk, to, ob, pk⟩
+  rcases c with ⟨d, t, cp, lo, io, im, mk, to, ob, pk, zf⟩
   simp only at hc
   obtain ⟨rfl, rfl⟩ := hc
   cases d <;> cases cp <;> cases lo <;> cases im <;> cases mk <;> cases to <;> cases ob <;>
-    cases pk <;> decide
+    cases pk <;> cases zf <;> decide
 
 def overlapOps : List Op :=
   [.put ⟨0, [97], maxVersion, [1], false⟩, .put ⟨0, [99], maxVersion, [1], false⟩,
@@ -95,11 +111,11 @@ def overlapOps : List Op :=
 theorem C01_fails_asis_overlap (c : Cfg) (hc : c.overlapRightKey = .maxKey ∧ c.tieRule = .lt) :
     ¬ (getPlain c (run c {} overlapOps) 0 [99] = lww (logOf [] overlapOps) 0 [99]) ∧
     ¬ (getPlain c (run c {} overlapOps) 0 [109] = lww (logOf [] overlapOps) 0 [109]) := by
-  rcases c with ⟨d, t, cp, lo, io, im, mk, to, ob, pk⟩
+  rcases c with ⟨d, t, cp, lo, io, im, mk, to, ob, pk, zf⟩
   simp only at hc
   obtain ⟨rfl, rfl⟩ := hc
   cases d <;> cases cp <;> cases lo <;> cases io <;> cases im <;> cases mk <;> cases to <;>
-    cases pk <;> decide
+    cases pk <;> cases zf <;> decide
 
 /-- corpus/C01/finding-first-hit-mixed-versions.ops: needs a versioned write mixed in (the plain
     API alone always writes one version, for which first-hit is harmless) -/
@@ -108,11 +124,11 @@ def firstHitOps : List Op :=
 
 theorem C01_fails_asis_firsthit (c : Cfg) (hc : c.crossPick = .firstHit) :
     ¬ (getPlain c (run c {} firstHitOps) 0 [107] = lww (logOf [] firstHitOps) 0 [107]) := by
-  rcases c with ⟨d, t, cp, lo, io, im, mk, to, ob, pk⟩
+  rcases c with ⟨d, t, cp, lo, io, im, mk, to, ob, pk, zf⟩
   simp only at hc
   subst hc
   cases d <;> cases t <;> cases lo <;> cases io <;> cases im <;> cases mk <;> cases to <;>
-    cases ob <;> cases pk <;> decide
+    cases ob <;> cases pk <;> cases zf <;> decide
 
 /-- corpus/C01/finding-oversized-key.ops: the plain API acknowledges a 70 000-byte key, both
     memtable engines keep its length in a `uint16`: what is stored is an entry of the
@@ -134,5 +150,17 @@ theorem C01_bigkey_rejected (c : Cfg) (hc : c.plainKeyLimit = true) (s : St) (e 
     (hk : e.key ≠ []) (hl : e.key.length > maxKeySize) : write c s e = (s, .tooBig) := by
   unfold write
   simp [hk, hc, hl]
+
+/-- corpus/C01/finding-version-zero-lost-mixed.ops: an entry written with version 0 (through the
+    versioned API) is lost for the plain `Get` as well once its memtable is flushed -/
+def zeroVerOps : List Op := [.put ⟨0, [107], 0, [1], false⟩, .rotate, .flush]
+
+theorem C01_fails_asis_zerover (c : Cfg) (hc : c.zeroVersionFound = false) :
+    ¬ (getPlain c (run c {} zeroVerOps) 0 [107] = lww (logOf [] zeroVerOps) 0 [107]) := by
+  rcases c with ⟨d, t, cp, lo, io, im, mk, to, ob, pk, zf⟩
+  simp only at hc
+  subst hc
+  cases d <;> cases t <;> cases cp <;> cases lo <;> cases io <;> cases im <;> cases mk <;> cases to <;>
+    cases ob <;> cases pk <;> decide
 
 end NoKV.Props.C01
